@@ -258,10 +258,11 @@ pub fn run(args: &Args, rep: &mut Report) {
             return;
         }
         let b = gen_bundle(rng, &params);
-        let form = rng.below(4);
+        let form = rng.below(5);
         let program = match form {
             0 | 1 => quoted_generator(&b).serialize(),
             2 => serialize_backrefs(&quoted_generator(&b)),
+            3 => computed_program(&generator_value(&b), rng, 0).serialize(),
             _ => procedural_generator(&b).serialize(),
         };
         let mut flags = ConsensusFlags::DONT_VALIDATE_SIGNATURE;
